@@ -78,10 +78,18 @@ func libGoroutines() (int, string) {
 
 func registerRich(regTool func(*mcp.Tool, func(context.Context, *mcp.CallToolRequest) (*mcp.CallToolResult, error)),
 	regPrompt func(*mcp.Prompt, func(context.Context, *mcp.GetPromptRequest) (*mcp.GetPromptResult, error)),
-	regRes func(*mcp.Resource, func(context.Context, *mcp.ReadResourceRequest) (mcp.ResourceContents, error)), set string) {
+	regRes func(*mcp.Resource, func(context.Context, *mcp.ReadResourceRequest) (mcp.ResourceContents, error)),
+	regMulti func(*mcp.Resource, func(context.Context, *mcp.ReadResourceRequest) ([]mcp.ResourceContents, error)), set string) {
 	if set == "empty" {
 		return
 	}
+	// multi-contents handlers: two items, and a list one of whose items is nil
+	regMulti(&mcp.Resource{URI: "r://multi", Name: "multi"}, func(ctx context.Context, req *mcp.ReadResourceRequest) ([]mcp.ResourceContents, error) {
+		return []mcp.ResourceContents{mcp.TextResourceContents{URI: "r://multi", Text: "M1"}, mcp.BlobResourceContents{URI: "r://multi#2", Blob: "AAEC"}}, nil
+	})
+	regMulti(&mcp.Resource{URI: "r://multi-nil", Name: "multi-nil"}, func(ctx context.Context, req *mcp.ReadResourceRequest) ([]mcp.ResourceContents, error) {
+		return []mcp.ResourceContents{mcp.TextResourceContents{URI: "r://multi-nil", Text: "M1"}, nil}, nil
+	})
 	nonce := func(req *mcp.CallToolRequest) string { n, _ := req.Params.Arguments["nonce"].(string); return n }
 	regTool(mcp.NewTool("echo", mcp.WithDescription("echo tool"), mcp.WithString("nonce")), func(ctx context.Context, req *mcp.CallToolRequest) (*mcp.CallToolResult, error) {
 		return mcp.NewTextResult("T:" + nonce(req)), nil
@@ -192,6 +200,9 @@ func newProbeWorld(kind, set string, settleMs int) (*probeWorld, error) {
 			},
 			func(r *mcp.Resource, h func(context.Context, *mcp.ReadResourceRequest) (mcp.ResourceContents, error)) {
 				srv.RegisterResource(r, h)
+			},
+			func(r *mcp.Resource, h func(context.Context, *mcp.ReadResourceRequest) ([]mcp.ResourceContents, error)) {
+				srv.RegisterResources(r, h)
 			}, set)
 		if set != "empty" {
 			srv.RegisterResourceTemplate(mcp.NewResourceTemplate("r://tpl/{id}", "tpl"), func(ctx context.Context, req *mcp.ReadResourceRequest) ([]mcp.ResourceContents, error) {
@@ -218,6 +229,9 @@ func newProbeWorld(kind, set string, settleMs int) (*probeWorld, error) {
 			},
 			func(r *mcp.Resource, h func(context.Context, *mcp.ReadResourceRequest) (mcp.ResourceContents, error)) {
 				srv.RegisterResource(r, h)
+			},
+			func(r *mcp.Resource, h func(context.Context, *mcp.ReadResourceRequest) ([]mcp.ResourceContents, error)) {
+				srv.RegisterResources(r, h)
 			}, set)
 		if set != "empty" {
 			srv.RegisterResourceTemplate(mcp.NewResourceTemplate("r://tpl/{id}", "tpl"), func(ctx context.Context, req *mcp.ReadResourceRequest) ([]mcp.ResourceContents, error) {
@@ -238,6 +252,9 @@ func newProbeWorld(kind, set string, settleMs int) (*probeWorld, error) {
 			},
 			func(r *mcp.Resource, h func(context.Context, *mcp.ReadResourceRequest) (mcp.ResourceContents, error)) {
 				srv.RegisterResource(r, h)
+			},
+			func(r *mcp.Resource, h func(context.Context, *mcp.ReadResourceRequest) ([]mcp.ResourceContents, error)) {
+				srv.RegisterResources(r, h)
 			}, set)
 		if set != "empty" {
 			srv.RegisterResourceTemplate(mcp.NewResourceTemplate("r://tpl/{id}", "tpl"), func(ctx context.Context, req *mcp.ReadResourceRequest) ([]mcp.ResourceContents, error) {
